@@ -28,6 +28,7 @@ def exec_validate_threads(ctx, req, nthreads):
                                  sig=dict(verdict="harness-child-died", rc=h["rc"], stderr=h["stderr"][-500:])))
         return None
     noise = len(h["stdout"]) + len(h["stderr"])
+    vlib.log("bytes written by the calls on stdout + stderr: %d" % noise)
     with open(obs, "a", encoding="utf-8") as f:
         f.write(json.dumps({"k": -1, "who": "streams", "seq": 0, "res": str(noise)}) + "\n")
     ctx.evaluations = h["records"]
@@ -82,10 +83,10 @@ def run(ctx):
     vlib.mutant_refuted(ctx, "MC_Memo", mut, "Bug_SharedScratch")
     q = ctx.quick()
     prm = dict(langs=vlib.LANGS, randn=12 if q else 80, seed=ctx.seed % 100000, thrs=["0", "10"],
-               want=["t2d", "rew", "toks", "occs"], vias=["concrete", "facade"])
+               want=["t2d", "rew", "toks", "occs", "iter1"], vias=["concrete", "facade"])
     pj = ctx.path("params.json")
     json.dump(prm, open(pj, "w"))
-    req, n = vlib.generate(ctx, "Gen_Facade", None, "req.ndjson", env={"PARAMS": pj})
+    req, n = vlib.generate(ctx, "Gen_Facade", None, "req_calls.ndjson", env={"PARAMS": pj})   # (spell.generate below writes req.ndjson)
     # families of inputs that differ only by inflection / spelling variant (what a too-coarse cache key would conflate):
     # every ordinal inflection of the same rank, every spelling variant of the same number, k leading zeros
     from checks import spell
